@@ -26,8 +26,46 @@ EXPLANATION = (
 TYPES = ['json', 'json5', 'yaml', 'csv', 'xml', 'html', 'plist', 'pickle']
 
 
-def _files(tf):
+def _null_files(tf):
+    """Third pair (types with a null value only): documents containing null."""
     import yaml
+    a, b = {"n": None, "l": [None]}, {"n": None, "l": [None, 1]}
+    out = {}
+    out['json'] = (tf.write(json.dumps(a), '.json'), tf.write(json.dumps(b), '.json'))
+    out['json5'] = (tf.write(json.dumps(a), '.json5'), tf.write(json.dumps(b), '.json5'))
+    out['yaml'] = (tf.write(yaml.safe_dump(a), '.yml'), tf.write(yaml.safe_dump(b), '.yml'))
+    out['pickle'] = (tf.write(pickle.dumps(a), '.pkl', binary=True), tf.write(pickle.dumps(b), '.pkl', binary=True))
+    return out
+
+
+def _rich_files(tf):
+    """Second document pair per type: every scalar kind the type can express, empty and nested containers, non-ASCII
+    text and - where the type allows them (YAML, pickle) - mapping keys that are not strings."""
+    import yaml
+    a = {"s": "caf\u00e9 <&> \"q\"", "i": -3, "f": 2.5, "t": True, "e": [], "o": {}, "l": [[1, [2]], {"k": [0]}]}
+    b = {"s": "cafe <&>", "i": 4, "f": -0.5, "t": False, "e": [1], "o": {"x": {}}, "l": [[1, [3]], {"j": []}]}
+    ka = {1: "one", 2.5: "f", True: "b", "s": {3: [4]}}
+    kb = {1: "uno", 7: "seven", False: "b", "s": {3: [5], 4: 4}}
+    pa, pb = a, b
+    out = {}
+    out['json'] = (tf.write(json.dumps(a), '.json'), tf.write(json.dumps(b), '.json'))
+    out['json5'] = (tf.write(json.dumps(a), '.json5'), tf.write(json.dumps(b), '.json5'))
+    out['yaml'] = (tf.write(yaml.safe_dump({**a, **ka}), '.yml'), tf.write(yaml.safe_dump({**b, **kb}), '.yml'))
+    out['csv'] = (tf.write('h1,h2\n"a,b",\n,\n', '.csv'), tf.write('h1,h2,h3\n"q""x",1,\n', '.csv'))
+    out['xml'] = (tf.write('<r a="1" b="2">t<b>caf\u00e9</b>tail<c/><d><e x="y">z</e></d></r>', '.xml'),
+                  tf.write('<r b="3">u<b/><d><e>w</e><e/></d></r>', '.xml'))
+    out['html'] = (tf.write('<html><head><title>t</title></head><body><div id="a"><p>x</p>y</div></body></html>', '.html'),
+                   tf.write('<html><body><div id="b"><p>x</p><p>z</p></div></body></html>', '.html'))
+    out['plist'] = (tf.write(plistlib.dumps(pa), '.plist', binary=True), tf.write(plistlib.dumps(pb), '.plist', binary=True))
+    out['pickle'] = (tf.write(pickle.dumps({**a, **ka, "tup": (1, 2)}), '.pkl', binary=True),
+                     tf.write(pickle.dumps({**b, **kb, "tup": (1,)}), '.pkl', binary=True))
+    return out
+
+
+def _files(tf, variant=0):
+    import yaml
+    if variant:
+        return _rich_files(tf) if variant == 1 else _null_files(tf)
     a, b = {"a": [1, 2, {"b": "x"}], "c": "str"}, {"a": [1, 3, {"b": "y"}], "d": "str"}
     out = {}
     out['json'] = (tf.write(json.dumps(a), '.json'), tf.write(json.dumps(b), '.json'))
@@ -43,11 +81,12 @@ def _files(tf):
 
 
 def _job(job):
-    intype, fmt, mode, style, cond, differ = job
+    intype, fmt, mode, style, cond, differ = job[:6]
+    variant = job[6] if len(job) > 6 else 0
     tf = gt.TempFiles()
     fails = []
     try:
-        files = _files(tf)
+        files = _files(tf, variant)
         pa, pb = files[intype]
         argv = [pa, pb if differ else pa, '--no-status', f'--from-{intype}', f'--to-{intype}', '--format', fmt] + mode + style + cond
         rc, out, err, exc = gt.run_cli(argv)
@@ -56,6 +95,8 @@ def _job(job):
             colorama.deinit()
         if exc is not None:
             cls = f"c13-exception:{type(exc).__name__}:{intype}->{fmt}"
+            if fmt == 'plist' and isinstance(exc, TypeError) and "unsupported type: <class 'NoneType'>" in str(exc):
+                cls = 'c13-plist-null'      # plist has no null: plistlib.dumps(None) in PLISTFormatter.write_obj
             if 'Parent is already assigned' in str(exc):
                 if "KeyValuePairNode(key=StringNode('tag')" in str(exc) and intype in ('xml', 'html') and fmt not in ('xml', 'html', 'yaml'):
                     cls = 'c13-reparent:xml-element-adapter'
@@ -98,7 +139,7 @@ def replay(entry, repo_root):
     r = entry.get('replay') or {}
     if r.get('kind') == 'config':
         j = r['job']
-        f = _job((j[0], j[1], j[2], j[3], j[4], j[5]))
+        f = _job(tuple(j))
         return f[0]['what'] if f else None
     return None
 
@@ -108,10 +149,14 @@ def bounded(tier, seed, repo_root):
     styles = [['--no-color'], ['--color'], ['--html']]
     conds = [[], ['-j']]
     jobs = [(i, f, m, s, c, d) for i in TYPES for f in TYPES for m in modes for s in styles for c in conds for d in (True, False)]
+    rich = [(i, f, m, ['--no-color'], [], d, 1) for i in TYPES for f in TYPES for m in modes for d in (True, False)]
+    rich += [(i, f, m, ['--no-color'], [], d, 2) for i in ('json', 'json5', 'yaml', 'pickle') for f in TYPES for m in modes for d in (True, False)]
+    jobs += rich
     fails = [f for fs in pmap(_job, jobs, repo_root, chunksize=8) for f in fs]
     return [{
         'name': 'C13.configuration-matrix', 'bound': f"{len(TYPES)} input types x {len(TYPES)} output formats x 3 modes x 3 styles x 2 "
-        f"(condensed) x 2 (equal / different documents) = {len(jobs)} runs of main(), one document pair per type",
+        f"(condensed) x 2 (equal / different documents) = {len(jobs) - len(rich)} runs of main() on one plain document pair per type, plus {len(rich)} runs (types x formats x modes x equal/different) "
+        f"on a second pair per type with every scalar kind, empty/nested containers, non-ASCII text and non-string mapping keys (YAML, pickle), and a third pair containing null (json, json5, yaml, pickle)",
         'evaluations': len(jobs), 'distinct_nontrivial': len(jobs), 'exhaustive': True,
         'rule': 'configuration -> graphtage.__main__.main completes without an exception other than SystemExit, exit status in {0,1}',
         'failures': fails, 'samples': [list(j) for j in jobs[100:103]],
